@@ -136,18 +136,31 @@ CLAIMED = {
         design="DESIGN.md §3 C19, §9"),
     "C20": dict(
         text="Lean 4 theorems over R about the formulas the translator extracts from trap_grad / min_trap_grad (Gen/TrapGrad.lean: "
-             "ramp lengths, triangle/trapezoid test, flat length, rescale factor, flat count with its max(.,1) guard, gmax cap): for "
-             "all positive area, gmax, dgdt, dt the waveform starts and ends at 0, sum(trap)*dt = area exactly, |g| <= gmax and "
-             "|dg|/dt <= dgdt in both regimes incl. joints (trap_meets_limits, min_trap_meets_limits with flat-top area = area), "
-             "ramppts >= 1, min_trap_defined (with the guard the design always exists; the error branch is exactly 2*area < "
-             "dgdt*dt^2), spokes_axis_limits / spokes_gz_limits / blip_kspace for the concatenation. Tie: Gen/TrapGrad.lean "
-             "regenerated each run + real functions vs the exact rational model (sqrt enters as an integer hint checked against its "
-             "squared inequalities).",
-        note="Trusted: Lean kernel; translator gen_c20; the Rat-ceiling vs Nat.ceil bridge and the order-preserving cast Rat -> R "
-             "are assumed; spokes_grad assembly is compared exactly on labelled sub-waveforms, spoke sets whose blips are longer than "
-             "one slice-select lobe are outside the modelled domain; float rounding at ceiling ties not modelled (1e-9 slack in the "
-             "oracle).",
-        technique="Lean 4 proof over translator-generated design formulas + exact-rational differential correspondence",
+             "ramp lengths, triangle/trapezoid test, flat length, rescale factor, flat count with its max(.,1) guard, gmax cap; every "
+             "ceiling / comparison is a numbered site): for all positive area, gmax, dgdt, dt the waveform starts and ends at 0, "
+             "sum(trap)*dt = area exactly, |g| <= gmax and |dg|/dt <= dgdt in both regimes incl. joints (trap_meets_limits, "
+             "min_trap_meets_limits with flat-top area = area), ramppts >= 1, min_trap_defined (the error branch is exactly 2*area < "
+             "dgdt*dt^2). Bridge proved (Props/C20Rat): rat_real_agree / trapGrad_cast / minTrapGrad_cast - casting the rational "
+             "inputs to R commutes with every generated formula (Rat.ceil = Int.ceil, Nat.ceil = toNat of it, ordered-field "
+             "embedding, checked sqrt hints = the real ceil/floor of the root), so trap_meets_limits_rat / min_trap_meets_limits_rat "
+             "/ trap_area_rat hold for the exact rational waveform the driver computes and the correspondence compares with the real "
+             "code. spokes_grad: the assembly (per-spoke loop, sign alternation, zero padding, blip placement by slicing, rewinder, "
+             "k-space differences / 4257) is translator-generated (Gen/Spokes.lean) with abstract designers; spokes_closed_form, "
+             "spokes_limits (all three axes zero-ended within the limits, under the explicit domain condition that every blip fits "
+             "into one slice-select lobe), spokes_kspace (4257*sum(g)*dt over a spoke's segment = k[i+1]-k[i], k[n]=0), "
+             "spokes_limits_designers (no hypothesis on the designers left). ceil_perturb_iff / ceil_stable: float ceil differs from "
+             "exact ceil iff an integer separates the rounded double from the exact argument. Tie: Gen/TrapGrad.lean, Gen/Spokes.lean "
+             "regenerated each run + real functions vs the exact rational model, following the float code through the doubles it "
+             "rounded at each site (ties compared exactly, none skipped); real spokes_grad with table designers vs the generated "
+             "assembly, inside and outside the domain condition.",
+        note="Trusted: Lean kernel; translator gen_c20 (fail-closed statement-level translator for the spokes assembly); numpy "
+             "linspace/concatenate/ones/sum/vstack and list slicing. Not proved: IEEE rounding itself (where a rounding crosses an "
+             "integer the float path differs from the exact path the _rat theorems are about; such cases occur only within ~1e-16 of "
+             "a tie, are counted on every run, compared exactly via the recorded double, and absorbed by the property's 1e-9 slack). "
+             "Outside the domain condition of spokes_limits (a blip longer than one slice-select lobe) the real code raises at "
+             "np.vstack or silently overwrites the previous spoke's tail - recorded as an observation, reproduced by the generated "
+             "model, not a violation.",
+        technique="Lean 4 proof over translator-generated design formulas and assembly + exact-rational differential correspondence",
         design="DESIGN.md §3 C20, §9"),
     "C07": dict(
         text="Lean 4 theorems about the six numba loop nests regenerated from sigpy/interp.py (Gen/Interp.lean) and the generated "
@@ -170,13 +183,31 @@ CLAIMED = {
              "sites agree; padding never crops), scaleCoord_period and nufft_periodic{1,2,3} (shifting coordinates by whole image "
              "periods leaves the interpolation update list literally unchanged), nudft_periodic, grid_centre_consistency / "
              "crop_centre_consistency / dc_lands_on_centre (zero-pad, crop, _scale_coord shift and _apodize centre use the same "
-             "centre; reuses C09), scale_consistency / pipeline_adjoint / nufft_adjoint_is_adjoint (the adjoint pipeline is "
-             "stagewise the adjoint of the forward one with the code's scalings, taking the FFT/resize/gridding facts of C05/C09/C07 "
-             "as hypotheses). Tie: Gen/NufftFormulas.lean regenerated every run (formulas, stage order, beta, arguments handed to "
-             "interpolate/gridding) + recorded real nufft/nufft_adjoint runs (os_shape, scaled coordinates, scalings at 1e-12).",
+             "centre; reuses C09), scale_consistency / pipeline_adjoint / nufft_adjoint_is_adjoint (abstract: stagewise adjointness "
+             "with the code's scalings given the stage facts) and nufft_adjoint_is_adjoint_1d / _1d_code / _2d: the CONCRETE "
+             "pipelines on C^N -> C^L -> C^M (one and two transform axes) built from a real diagonal apodisation, C09's zero-pad / crop "
+             "model (resizeMat / resizeMatNd; adjoint pair by C09.resize_transpose / resize_transpose_nd), C05's centred DFT matrices "
+             "(L * uIFFT = uFFT^H by idftMatrix_eq_conjTranspose; 2-D: Kronecker product) and C07's generated update lists Gen.interp1/2, "
+             "Gen.grid1/2 run with C07's runUpd with real weights (grid = interp^T, transpose_pairing, in-bounds) satisfy "
+             "<nufft x, y> = <x, nufft_adjoint y> with NO stage hypothesis left - only: apodisation weights real, kernel real-valued. "
+             "Toeplitz normal operator: the translator extracts toeplitz_psf (embedding factor fed through the generated oversampLen / "
+             "scaleCoord, unit-sample index, final factor, call arguments resolved against the signatures) and checks "
+             "NUFFT._normal_linop (toeplitz_psf(self.coord, self.ishape, self.oversamp, self.width); T = R.H F.H P F R; FFT orthonormal); "
+             "toep_embed_len (= 2N), toep_coord_doubled (2c + one period), toep_delta_on_centre, toep_final_mul (2^ndim compensates the two "
+             "normalisations), toep_psf_is_kernel, nudft_gram_toeplitz (A^H A of the exact NUDFT is Toeplitz with kernel "
+             "|c|^2 sum_j exp(2 pi i k_j d / N)), circulant_diagonalised and toeplitz_embedding_exact / toeplitz_structure: with sigpy's "
+             "CENTRED conventions (C09 pad/crop N <-> 2N, C05 centred orthonormal DFT of length 2N, p = centred unnormalised DFT of "
+             "psf[m] = t(m - N)), R^H F^H diag(p) F R equals the Toeplitz matrix t(n - n') entry by entry (1-D). "
+             "Tie: Gen/NufftFormulas.lean regenerated every run (formulas, stage order, beta, arguments handed to "
+             "interpolate/gridding, toeplitz_psf, _normal_linop) + recorded real nufft/nufft_adjoint runs (os_shape, scaled coordinates, "
+             "scalings at 1e-12).",
         note="Trusted: Lean kernel; translator gen_c07; float ceiling ties handled by evaluating the model at the effective rational "
              "oversamp fl(os*N)/N; accuracy bound, Kaiser-Bessel values and rounding are oracle-only; periodicity at 1e-6 is "
-             "skipped at window-edge ties (exact arithmetic equality is the theorem).",
+             "skipped at window-edge ties (exact arithmetic equality is the theorem). The concrete adjoint theorems assume real "
+             "apodisation weights (checked numerically) and a real-valued kernel; 3-D and batch axes are not written out (oracle). "
+             "The Toeplitz theorems are about the exact kernel: the accuracy of the psf COMPUTED by toeplitz_psf (approximate nufft of "
+             "a unit sample, complex64) is oracle-only (A.N(x) vs A.H(A(x)) at oversamp=2, width 7/8 within 3e-4; clean maximum 2.6e-5); "
+             "N-d Toeplitz embedding (per-axis composition) not written out.",
         technique="Lean 4 proof of pipeline structure over translator-generated formulas + correspondence; accuracy measured by oracle",
         design="DESIGN.md §3 C06, §9"),
     "C10": dict(
